@@ -11,7 +11,7 @@ import hashlib
 import json
 import os
 from collections import Counter
-from checklib import sh, parse_kv_line
+from checklib import sh, parse_kv_line, REPO, HARNESS
 
 MAX_REPORT = 12
 
@@ -33,6 +33,18 @@ def run(ctx):
     ctx.prove(["TsVerif.C17.Props"], "TsVerif/C17/Audit.lean")
     driver = ctx.build_driver("tsv-c17")
     explorer = ctx.cargo_bin("c17")
+    # optional: with hooks/C17-reexport.diff in /repo the explorer also calls the REAL private intersect_ranges
+    try:
+        hook = "pub mod verif" in open(os.path.join(REPO, "crates/highlight/src/highlight.rs")).read()
+    except OSError:
+        hook = False
+    if hook and explorer:
+        rc, o = sh(["cargo", "rustc", "--release", "--offline", "--bin", "c17", "--", "--cfg", "tsv_c17_hook"], cwd=HARNESS, timeout=3000)
+        ctx.notes.append("hook hooks/C17-reexport.diff present: explorer built with --cfg tsv_c17_hook (rc %d)" % rc)
+        if rc != 0:
+            ctx.oblige("build:harness:c17+hook", False, o[-800:])
+    else:
+        ctx.notes.append("hook hooks/C17-reexport.diff not applied: intersect_ranges is tied through the harness's ranges + exact event streams only")
     if not (explorer and os.path.exists(driver)):
         return ctx.finish()
     ops = os.path.join(ctx.workdir, "ops.txt")
@@ -116,6 +128,13 @@ def run(ctx):
             multi["compared"] += 1
             nl = int(kv.get("nlayers", "0") or 0)
             dist["N:layers=%s" % ("1" if nl <= 1 else "2-3" if nl <= 3 else "4-8" if nl <= 8 else ">8")] += 1
+            multi["ir_compared"] += int(kv.get("ir", "0") or 0)
+            multi["ir_equal"] += int(kv.get("ir", "0") or 0) - int(kv.get("irbad", "0") or 0)
+            multi["ir_real"] += int(kv.get("irreal", "0") or 0)
+            if kv.get("irbad", "0") != "0":
+                report_corr(cid, kv, "Lean port intersectRanges differs from the injection ranges the harness used (which reproduce the real stream)", "intersectRanges=content_ranges")
+            if kv.get("refsup") != "1":
+                report_corr(cid, kv, "layer table of a real case violates refsUp (hypothesis of merge_multi_wellformed)", "refsUp")
             if kv.get("defsin") != "1":
                 report_corr(cid, kv, "a real capture lies outside the source (hypothesis defsIn of merge_multi_wellformed_partial)", "defsIn")
             if corr == "ok" and kv.get("fin") == "1":
@@ -239,6 +258,8 @@ def run(ctx):
         "judge_failures_by_clause_and_cause": dict(causes),
         "correspondence": {"compared": evals + kinds["L"], "equal": evals + kinds["L"] - corr_bad},
         "correspondence_merge_multi": {"compared": multi["compared"], "equal": multi["equal"]},
+        "correspondence_intersect_ranges": {"compared": multi["ir_compared"], "equal": multi["ir_equal"], "of_which_against_the_real_private_function": multi["ir_real"],
+                                            "how": "Lean intersectRanges vs the ranges the harness fed to the layers whose real event stream was then reproduced exactly"},
         "judge": {"evaluated": judge_eval, "passed": judge_eval - judge_bad},
         "impl_vs_judge_failures": judge_bad, "model_vs_impl_disagreements": corr_bad,
     })
